@@ -135,6 +135,15 @@ func corpusFor(c *Ctx) []*corpus.Program {
 		progs = append(progs, corpus.FG(3, 2, 0, 0, 4)...)
 		progs = append(progs, corpus.FW()...)
 	}
+	if v := os.Getenv("VERIF_CORPUS_MATCH"); v != "" { // debugging aid: only programs whose description contains v
+		var sel []*corpus.Program
+		for _, p := range progs {
+			if strings.Contains(p.Desc, v) {
+				sel = append(sel, p)
+			}
+		}
+		progs = sel
+	}
 	if v := os.Getenv("VERIF_CORPUS_LIMIT"); v != "" {
 		var n int
 		fmt.Sscan(v, &n)
